@@ -26,6 +26,9 @@ struct FnSpec {
     loops: BTreeMap<String, String>,
     #[serde(default)]
     closures: BTreeMap<String, String>,
+    /// optional body-hash anchors for spec'd closures: spec key -> hash of the closure body
+    #[serde(default)]
+    closure_hashes: BTreeMap<String, String>,
     #[serde(default)]
     hints: Vec<Hint>,
     #[serde(default)]
@@ -116,6 +119,7 @@ struct UnitOut {
     n_loops: usize,
     n_closures: usize,
     n_tries: usize,
+    closure_info: Vec<(String, usize, String, String)>,
     error: Option<String>,
     identity_ok: Option<bool>,
 }
@@ -212,6 +216,7 @@ struct Numberer {
     loops: usize,
     closures: usize,
     tries: usize,
+    closure_hashes: Vec<(usize, String, String)>,
 }
 impl VisitMut for Numberer {
     fn visit_expr_mut(&mut self, e: &mut Expr) {
@@ -234,6 +239,8 @@ impl VisitMut for Numberer {
             Expr::Closure(c) => {
                 let k = self.closures;
                 self.closures += 1;
+                let params: Vec<String> = c.inputs.iter().map(|p| pat_name(p)).collect();
+                self.closure_hashes.push((k, lit_hash(&norm(&c.body.to_token_stream())), params.join(",")));
                 c.attrs.push(parse_quote!(#[vx_ord(#k)]));
             }
             Expr::Try(t) => {
@@ -552,7 +559,7 @@ impl<'a> VisitMut for Rewriter<'a> {
             }
             Expr::Try(t) => {
                 if let Some(k) = vx_ord(&t.attrs) {
-                    if let Some(kind) = self.spec.tries.get(&k.to_string()) {
+                    if let Some(kind) = self.spec.tries.get(&k.to_string()).or_else(|| self.spec.tries.get("all")) {
                         let inner = &t.expr;
                         let r: Expr = if kind == "option" {
                             parse_quote!(match #inner { Some(v) => v, None => return None })
@@ -772,11 +779,57 @@ fn process_fn(
     out: &mut UnitOut,
     subs: &mut Vec<(String, String, String)>, // (kind, marker, text)
 ) {
-    let mut num = Numberer { loops: 0, closures: 0, tries: 0 };
+    let mut num = Numberer { loops: 0, closures: 0, tries: 0, closure_hashes: vec![] };
     num.visit_block_mut(block);
     out.n_loops += num.loops;
     out.n_closures += num.closures;
     out.n_tries += num.tries;
+    for (k, h, p) in &num.closure_hashes {
+        out.closure_info.push((sig.ident.to_string(), *k, h.clone(), p.clone()));
+    }
+    // closures anchored by body hash: renumber so that the spec key follows the closure body
+    if !spec.closure_hashes.is_empty() {
+        let mut remap: BTreeMap<usize, usize> = BTreeMap::new(); // actual ordinal -> spec key
+        let mut taken: Vec<usize> = vec![];
+        let mut by_hash: BTreeMap<String, Vec<usize>> = BTreeMap::new();
+        for (key, h) in &spec.closure_hashes {
+            by_hash.entry(h.clone()).or_default().push(key.parse().unwrap_or(usize::MAX));
+        }
+        for (h, keys) in by_hash.iter_mut() {
+            keys.sort();
+            let hits: Vec<usize> = num.closure_hashes.iter().filter(|(_, hh, _)| hh == h).map(|(a, _, _)| *a).collect();
+            if hits.len() == keys.len() {
+                for (a, k) in hits.iter().zip(keys.iter()) {
+                    remap.insert(*a, *k);
+                    taken.push(*k);
+                }
+            }
+        }
+        if !remap.is_empty() {
+            // every closure not matched by hash keeps its ordinal unless that key is taken; then it gets a fresh one
+            let mut fresh = num.closures + 1000;
+            struct Renum<'b> { remap: &'b BTreeMap<usize, usize>, taken: &'b Vec<usize>, fresh: &'b mut usize }
+            impl<'b> VisitMut for Renum<'b> {
+                fn visit_item_mut(&mut self, _i: &mut Item) {}
+                fn visit_expr_mut(&mut self, e: &mut Expr) {
+                    if let Expr::Closure(c) = e {
+                        if let Some(a) = vx_ord(&c.attrs) {
+                            let newk = if let Some(k) = self.remap.get(&a) { *k } else if self.taken.contains(&a) { *self.fresh += 1; *self.fresh } else { a };
+                            strip_vx_ord(&mut c.attrs);
+                            c.attrs.push(parse_quote!(#[vx_ord(#newk)]));
+                        }
+                    }
+                    visit_mut::visit_expr_mut(self, e);
+                }
+            }
+            let mut rn = Renum { remap: &remap, taken: &taken, fresh: &mut fresh };
+            rn.visit_block_mut(block);
+            let moved: Vec<String> = remap.iter().filter(|(a, k)| a != k).map(|(a, k)| format!("{}->{}", a, k)).collect();
+            if !moved.is_empty() {
+                out.rewrites.push(RewriteLog { rule: "R12".into(), line: line_of(&sig.ident), detail: format!("closure contracts re-anchored by body hash (actual ordinal->spec key): {}", moved.join(" ")) });
+            }
+        }
+    }
 
     let mut sig_attr_dummy: Vec<Attribute> = vec![];
     std::mem::swap(&mut sig_attr_dummy, attrs);
@@ -893,6 +946,11 @@ fn process_fn(
             "first" => {
                 let id = syn::Ident::new(&format!("__vxhint_{}_{}", uid, i), proc_macro2::Span::call_site());
                 block.stmts.insert(0, parse_quote!(#id!{};));
+            }
+            "last" => {
+                // only meaningful for bodies whose value is (): the hint becomes the final statement
+                let id = syn::Ident::new(&format!("__vxhint_{}_{}", uid, i), proc_macro2::Span::call_site());
+                block.stmts.push(parse_quote!(#id!{};));
             }
             _ => {}
         }
@@ -1053,6 +1111,31 @@ fn is_cfg_test(attrs: &[Attribute]) -> bool {
 fn clean_type_item(it: &mut Item, keep: &[String], log: &mut Vec<RewriteLog>, drop_fields: &[String]) -> Vec<String> {
     let mut extra = vec![];
     let line = line_of(it);
+    {
+        let mut widened = false;
+        let mut widen = |v: &mut syn::Visibility| {
+            if !matches!(v, syn::Visibility::Public(_)) {
+                *v = parse_quote!(pub);
+                widened = true;
+            }
+        };
+        match it {
+            Item::Struct(s) => {
+                widen(&mut s.vis);
+                for f in s.fields.iter_mut() {
+                    widen(&mut f.vis);
+                }
+            }
+            Item::Enum(s) => widen(&mut s.vis),
+            Item::Const(s) => widen(&mut s.vis),
+            Item::Type(s) => widen(&mut s.vis),
+            Item::Trait(s) => widen(&mut s.vis),
+            _ => {}
+        }
+        if widened {
+            log.push(RewriteLog { rule: "R21".into(), line, detail: "visibility widened to pub (incl. fields)".into() });
+        }
+    }
     let (attrs, ident, generics, is_copy): (&mut Vec<Attribute>, syn::Ident, syn::Generics, bool);
     match it {
         Item::Struct(s) => {
@@ -1205,6 +1288,10 @@ fn process_unit(job: &Job, ctx: &Ctx, u: &UnitReq, uidx: usize, vac: bool) -> Un
                     f.sig.ident = syn::Ident::new(&format!("{}__vxvac", f.sig.ident), proc_macro2::Span::call_site());
                 }
                 let uid = format!("{}{}", if vac { "v" } else { "u" }, uidx);
+                if !matches!(f.vis, syn::Visibility::Public(_)) {
+                    f.vis = parse_quote!(pub);
+                    out.rewrites.push(RewriteLog { rule: "R21".into(), line: line_of(&f.sig), detail: "visibility widened to pub".into() });
+                }
                 process_fn(ctx, u, &uid, &mut f.attrs, &mut f.sig, &mut f.block, spec, &mut out, &mut subs);
                 text = f.to_token_stream().to_string();
             } else {
@@ -1345,6 +1432,10 @@ fn process_unit(job: &Job, ctx: &Ctx, u: &UnitReq, uidx: usize, vac: bool) -> Un
                         }
                         let uid = format!("{}{}f{}", if vac { "v" } else { "u" }, uidx, fidx);
                         fidx += 1;
+                        if im.trait_.is_none() && !matches!(f.vis, syn::Visibility::Public(_)) {
+                            f.vis = parse_quote!(pub);
+                            out.rewrites.push(RewriteLog { rule: "R21".into(), line: line_of(&f.sig), detail: "visibility widened to pub".into() });
+                        }
                         process_fn(ctx, u, &uid, &mut f.attrs, &mut f.sig, &mut f.block, spec, &mut out, &mut subs);
                         kept_items.push(ImplItem::Fn(f));
                     }
